@@ -20,13 +20,21 @@ PROP = dict(
          "non-trivial = at least two non-zero elements are judged, or the expected outcome is an exception",
     bounds=dict(
         quick="grid: 110 instantiations x lengths 0..64,1000 (all scalar values at lengths 0-3,5,8,16,33,64,1000, two per other length); mismatches 0..8^2; "
-              "copy/move n<=16; aliasing all lengths; concat 2..5 parts x lengths 0..3; zeropad 9x13; masks n<=8; index lists len 1..3, n<=5; trees depth<=2 (20.8k); "
+              "unary -/+ bit-exact at all lengths + extended alphabet; 106 sibling forms x 7/49-letter extended alphabet; copy/move n<=16; aliasing all lengths; concat 2..5 parts x lengths 0..3; zeropad 9x13; masks n<=8; index lists len 1..3, n<=5; trees depth<=2 (20.8k); "
               "chains depth<=5 (5.7M programs); asan pass: the same",
         thorough="as quick plus length 10000, masks n<=10, chains depth<=6 (96.5M programs); asan pass: the same with masks n<=8"),
     deadline=dict(quick=150, thorough=1200),
     passes=[dict(name="main"), dict(name="asan", variant="asan", args=["--asan-pass"])],
     assumptions=COMMON_ASSUME + [
-        "+ and - are compared with == against the componentwise IEEE operation (+0/-0 not distinguished); real*real, real/real exactly",
+        "binary + and - are compared with == against the componentwise IEEE operation (+0/-0 not distinguished there, see the sibling check); real*real, real/real exactly",
+        "unary minus / plus: BIT FOR BIT (NaN of any payload == NaN) against the component-wise sign flip and against the library's scalar operator-, for arr_real and "
+        "arr_cmplx, at every length over the grid alphabet (which contains (v,+-0), (+-0,v)) and over all 7 / 49 combinations of {+0,-0,1,-1,inf,-inf,NaN}; the same "
+        "bit-level condition is a side condition of every unary-minus node of the expression programs",
+        "check 'sibling': every array form without std::complex<double> (106 forms, binary and compound) is compared bit for bit with the library's scalar operator on the "
+        "same operand types over the 7/49-letter extended alphabet; asserted for the 92 forms where the unchanged tree agrees, recorded in the notes for the 14 forms "
+        "(real operand promoted to (x,+0): real-valued {+,-,*} complex-valued, cmplx_t {+,*} arr_real) where the unchanged tree already differs in the sign of a zero",
+        "-arr_cmplx is instantiated directly when cmplx_t is not constructible from std::vector<cmplx_t> (the compile-time fingerprint of the original non-compiling tree); "
+        "otherwise only the run-time compile probe observes it",
         "complex products/quotients: textbook formula in long double, 8 eps (|a.re b.re|+|a.im b.im|) per component resp. 8 eps |a|/|b|",
         "division by an exactly zero divisor and program values outside 1e-100..1e100 are outside the domain (executed, not judged)",
         "combinations rejected at compile time (compound forms that would change the element type; arr_real with std::complex<double> for + - /) "
